@@ -351,6 +351,31 @@ impl Ctx {
     pub fn known_finding_space(&self, name: &str) {
         self.known_finding_spaces.lock().unwrap().push(name.to_string());
     }
+    /// A small space of listed inputs on which the property is KNOWN to fail (genuine, not repaired; one line each in
+    /// known_findings.txt, matched by `key`). Each case returns Ok(()) if the property holds on it (then the finding line is
+    /// stale and the driver says so) or Err(description). Re-checked on every run, in both tiers.
+    pub fn known_cases(&self, space: &str, cases: Vec<(String, Box<dyn Fn() -> Result<(), String> + Sync + Send>)>) {
+        self.known_finding_space(space);
+        self.listed_cases(space, cases);
+    }
+    /// a handful of hand-listed inputs that must hold (regression inputs of repaired defects)
+    pub fn listed_cases(&self, space: &str, cases: Vec<(String, Box<dyn Fn() -> Result<(), String> + Sync + Send>)>) {
+        let n = cases.len() as u64;
+        self.lattice(
+            space,
+            n,
+            |i| cases[i as usize].0.clone(),
+            |i, acc| {
+                acc.nontriv("listed input");
+                let (key, f) = &cases[i as usize];
+                match catch(|| f()) {
+                    Ok(Ok(())) => {}
+                    Ok(Err(e)) => acc.fail(i, key.clone(), e),
+                    Err(p) => acc.fail(i, key.clone(), format!("panicked: {}", p)),
+                }
+            },
+        );
+    }
     pub fn machinery_error(&self, m: String) {
         self.machinery.lock().unwrap().push(m);
     }
